@@ -42,13 +42,14 @@ MIN_COUNTERS = {
     'quick': {'programs_compared': 250, 'comparisons': 1200, 'failing_builds': 150,
               'residue_checks': 450, 'concurrent_builds': 200,
               'concurrent_serialisations': 100, 'shared_argument_cases': 100,
-              'signed_zero_cases': 100,
+              'signed_zero_cases': 100, 'shared_object_cases': 100,
               'routine_steps_during_concurrent_builds': 100,
               'builds_inside_a_routine_during_concurrent_builds': 10},
     'thorough': {'programs_compared': 40000, 'comparisons': 160000,
                  'failing_builds': 30000, 'residue_checks': 60000,
                  'concurrent_builds': 40000, 'concurrent_serialisations': 1500,
                  'shared_argument_cases': 20000, 'signed_zero_cases': 20000,
+                 'shared_object_cases': 20000,
                  'routine_steps_during_concurrent_builds': 2000,
                  'builds_inside_a_routine_during_concurrent_builds': 100},
 }
@@ -272,6 +273,8 @@ def run_shard(spec, acc):
                 shared_args_case(ns, rng, acc, 'sequential')
             if rng.random() < 0.5:
                 signed_zero_case(ns, rng, acc, 'sequential')
+            if rng.random() < 0.5:
+                shared_objects_case(ns, rng, acc, 'sequential')
             out[str(i)] = build_one(gg, ns, gen(seed, i))
     elif kind == 'heavy':
         junk = heavy_use(rng)
@@ -358,18 +361,36 @@ def run_shard(spec, acc):
             brng = random.Random(derive_seed(seed, 'C20', cfg['name'], 'bg'))
             bidx = list(idx[::max(1, len(idx) // 40)])
 
-            def ticker():
+            bg_exits = []
+
+            def guarded(name, gen_):
+                def g():
+                    try:
+                        yield from gen_()
+                    except BaseException as e:      # noqa
+                        bg_exits.append((name, type(e).__name__, short_tb(e, 4)))
+                        raise
+                    bg_exits.append((name, 'returned', bg_stop[0]))
+                return g
+
+            def ticker_():
+                from sc3.base.main import main as _main
                 while not bg_stop[0]:
                     t0 = time.time()
-                    while time.time() - t0 < 0.0004:    # a step that takes a moment
-                        pass
+                    # a step that takes a moment - unless the clock is behind already
+                    # (no backlog may build up: a clock thread that always finds a due
+                    # task never lets go of the library lock)
+                    if _main.elapsed_time() - clk.SystemClock.seconds < 0.002:
+                        while time.time() - t0 < 0.0002:
+                            pass
                     with lock:
                         acc.count('routine_steps_during_concurrent_builds')
-                    yield 0.001
+                    yield 0.004
+            ticker = guarded('ticker', ticker_)
 
             bg_done = threading.Event()
 
-            def builder():
+            def builder_():
                 for i in bidx:
                     if bg_stop[0]:
                         break
@@ -381,8 +402,9 @@ def run_shard(spec, acc):
                             acc.count('builds_inside_a_routine_during_concurrent_builds')
                     except BaseException as e:   # noqa
                         errs.append(short_tb(e))
-                    yield 0.002
+                    yield 0.004
                 bg_done.set()
+            builder = guarded('builder', builder_)
             for c in (clk.SystemClock, bg_clock, clk.SystemClock):
                 stm.Routine(ticker).play(c) if c is clk.SystemClock else \
                     stm.Routine(ticker).play(c, 0)
@@ -399,11 +421,30 @@ def run_shard(spec, acc):
         if bg_clock is not None and not [t for t in ths if t.is_alive()]:
             # the routine that builds definitions itself finishes its list (on a
             # loaded host the threads may be done before it got far)
-            bg_done.wait(30.0)
+            if not bg_done.wait(60.0):
+                import traceback
+                frames = sys._current_frames()
+                where = []
+                for t in threading.enumerate():
+                    if t.name.startswith(('SystemClock', 'TempoClock')):
+                        fr = frames.get(t.ident)
+                        if fr is not None:
+                            where.append([t.name] + [
+                                f'{f.name}@{f.filename.split("/")[-1]}:{f.lineno}'
+                                for f in traceback.extract_stack(fr)[-6:]])
+                acc.violation('C20/build-inside-a-routine-does-not-finish',
+                              {'builds_done': acc.counters.get(
+                                  'builds_inside_a_routine_during_concurrent_builds', 0),
+                               'of': len(bidx), 'clock_threads': where[:3],
+                               'routine_exits': bg_exits[:6], 'harness_errors': errs[:2]})
         bg_stop[0] = True
         if bg_clock is not None:
             time.sleep(0.01)
-            bg_clock.stop()
+            # (from a helper thread: if a clock thread is stuck inside the library,
+            # stop() would wait for it for ever and the shard would be lost)
+            stopper = threading.Thread(target=bg_clock.stop, daemon=True)
+            stopper.start()
+            stopper.join(5.0)
         hung = [t for t in ths if t.is_alive()]
         if hung:
             import traceback
@@ -471,6 +512,67 @@ def shared_args_case(ns, rng, acc, where):
                        'rates': lags, 'rates_object_after_first_build': repr(shared),
                        'first_build_failed': first_fails, 'with_shared': out[0],
                        'with_fresh': out[1], 'where': where})
+
+
+def shared_objects_case(ns, rng, acc, where):
+    """Objects that outlive one build are inputs too ("after arbitrary earlier
+    use of the library"): an envelope object created outside the graph function
+    and parametrised inside it by assignment (levels / times / curves from the
+    function's controls), or mutated in place and assigned again between builds,
+    gives the bytes of a build that creates a fresh, equal envelope; also after
+    a build that failed behind the EnvGen."""
+    import hashlib as _h
+    SynthDef = ns['SynthDef']
+    field = rng.choice(['levels', 'times', 'curves'])
+    style = rng.choice(['assign-in-function', 'assign-in-function', 'mutate-and-reassign'])
+    fail_between = rng.random() < 0.3
+    nseg = rng.randint(2, 4)
+    lv = [0] + [round(rng.uniform(0.1, 1), 2) for _ in range(nseg - 1)] + [0]
+    tm = [round(rng.uniform(0.01, 1), 2) for _ in range(nseg)]
+    src = (
+        "def mk_env():\n"
+        f"    return Env({lv!r}, {tm!r}, 'lin')\n"
+        "def vfenv(amp=0.5, dur=0.25, crv=-2.0, gate=1):\n"
+        "    e = ENVBOX[0] if ENVBOX else mk_env()\n"
+        + ("    e.levels = [0, amp] + list(e.levels[2:])\n" if field == 'levels' and style == 'assign-in-function' else '')
+        + ("    e.times = [dur] + list(e.times[1:])\n" if field == 'times' and style == 'assign-in-function' else '')
+        + ("    e.curves = crv\n" if field == 'curves' and style == 'assign-in-function' else '')
+        + "    sig = SinOsc.ar(440) * EnvGen.kr(e, gate)\n"
+        "    if FAIL[0]:\n"
+        "        raise ValueError('vf injected')\n"
+        "    Out.ar(0, sig)\n")
+    d = dict(ns)
+    from sc3.synth.envelope import Env
+    from sc3.synth.ugens.envgen import EnvGen
+    d.update(Env=Env, EnvGen=EnvGen, ENVBOX=[], FAIL=[False])
+    exec(src, d)
+
+    def build():
+        try:
+            return _h.sha256(bytes(SynthDef('vfenv', d['vfenv']).as_bytes())).hexdigest()
+        except Exception as e:
+            return 'raised ' + type(e).__name__
+    ref = build()                      # a fresh envelope per build
+    d['ENVBOX'].append(d['mk_env']())  # from now on: one envelope object for all builds
+    got = []
+    for k in range(3):
+        if style == 'mutate-and-reassign' and k:
+            e = d['ENVBOX'][0]
+            x = getattr(e, field)
+            if isinstance(x, list):
+                setattr(e, field, x)            # the same list object assigned again
+        if fail_between and k == 1:
+            d['FAIL'][0] = True
+            build()
+            d['FAIL'][0] = False
+        got.append(build())
+    acc.count('shared_object_cases')
+    if any(g != ref for g in got):
+        k = next(i for i, g in enumerate(got) if g != ref)
+        acc.violation('C20/bytes-differ/object-shared-with-an-earlier-build/Env',
+                      {'field': field, 'style': style, 'failing_build_between': fail_between,
+                       'build': k + 1, 'with_shared_object': got[k], 'with_fresh_object': ref,
+                       'levels': lv, 'times': tm, 'where': where})
 
 
 def signed_zero_case(ns, rng, acc, where):
